@@ -27,13 +27,26 @@ pub fn any_id(len: usize) -> [u8; 4] {
     id
 }
 
-/// text of `len` literal non-NUL ASCII bytes
+/// The literal text of `len` bytes used for names, units and string values. From two bytes on it starts
+/// with a two-byte UTF-8 character, so that a byte count and a character count differ (length prefixes
+/// count BYTES) and the parser's UTF-8 handling of multi-byte sequences is on the path.
+pub const fn lit_text(len: usize) -> &'static str {
+    match len {
+        0 => "",
+        1 => "q",
+        2 => "\u{e9}",
+        3 => "\u{e9}Z",
+        _ => "\u{e9}Z9",
+    }
+}
+
+/// text of `len` literal non-NUL bytes (valid UTF-8, see lit_text)
 pub fn any_text<const K: usize>(len: usize) -> [u8; K] {
-    let lit = *b"q~Z9";
+    let lit = lit_text(len).as_bytes();
     let mut t = [0u8; K];
     let mut i = 0;
     while i < len && i < K {
-        t[i] = lit[i % 4];
+        t[i] = lit[i];
         i += 1;
     }
     t
@@ -390,7 +403,7 @@ pub fn check_arg(got: &Argument, a: &ArgShape, d: &ArgData) {
 /// Build the Argument value (for the writer direction) from shape + data.
 pub fn make_arg(a: &ArgShape, d: &ArgData) -> Argument {
     // texts are literal (see any_text): build them from a static str in one allocation
-    let text = |_t: &[u8; 4], len: usize| -> String { String::from(&"q~Z9"[..len]) };
+    let text = |_t: &[u8; 4], len: usize| -> String { String::from(lit_text(len)) };
     let has_unit = a.vari && !matches!(a.kind, AK::Bool | AK::Str | AK::Raw);
     Argument {
         type_info: expected_type_info(a),
